@@ -158,13 +158,17 @@ PROPS = {
                 "configurations up to 2^21; 17 quantiles per multiset (fixed grid incl. 0.001, 100, >100 plus random), ranks computed by the library's own float expression; "
                 "every multiset split at a random point into merge operands (same and different configurations, both merge orders); rotation schedules of 1-5 windows x 1-12 "
                 "steps; Export/Import, BSON and JSON round trips. Oracle: exact sorted list. Distinct = distinct (configuration, counts array).",
-        "level_text": "Theorems (Props/C13.lean): Import(Export(h)) = h for every configuration and record sequence; counts never negative; total = sum of counts; a merge step "
-                      "conserves counts (recorded + dropped). The order-statistic, merge-union and window clauses are stated (quantile_is_order_statistic) and decided on every run "
-                      "by the exact oracle and by model = implementation, not yet by a theorem.",
-        "level_note": "PARTIAL: quantile = order statistic, monotonicity, Min/Max/Mean bounds, merge = union, window = union of last n windows are checked against an exact oracle on "
-                      "every generated multiset (hdr-stat) and the executable Lean model agrees with the implementation on all of them; the Lean proofs of these clauses (which need the "
-                      "monotonicity of the counts index and the iterator = index enumeration lemma) are not done. Rank from q uses the same IEEE expression on both sides; Mean's "
-                      "final division is trusted.",
+        "level_text": "Theorems (Props/C13.lean, Lemmas/HdrRank.lean), for every valid configuration, every list of recorded int64 values and every rank: the value at rank r is the "
+                      "histogram's representative (highest equivalent value) of the exact order statistic of rank r (quantile_is_order_statistic; with the sorted list spelled out: "
+                      "quantile_is_rth_smallest), quantiles are monotone in the rank (quantile_monotone) and within the precision bound of the order statistic "
+                      "(quantile_within_precision); merging two histograms of one configuration equals recording the union of their values with nothing dropped (merge_is_union), in "
+                      "either order (merge_commutes, record_order_irrelevant); a windowed histogram's merge after any sequence of records and rotations equals recording what its "
+                      "slots hold (window_merge_is_union); Import(Export(h)) = h; counts never negative; a merge step conserves counts (recorded + dropped).",
+        "level_note": "Proved through: the counts array is the multiplicity function of the accepted values under the index map (cnts_getD), the index map is monotone (idx_mono), the "
+                      "iterator visits the indices in increasing order (find_iter, merge_fold), a value is accepted iff it lies below the capacity of the array (accepts_iff). "
+                      "PARTIAL, decided by the exact oracle of hdr-stat and by model = implementation only: Min/Max/Mean; merges across different configurations (where values are "
+                      "moved to the lower end of their range and may be dropped); that the slots of a window hold exactly its last n generations (modular index bookkeeping); the "
+                      "float expression int64(q/100*n + 0.5) that turns q into a rank; BSON/JSON marshalling.",
         "assumptions": ["as C12", "float rank expression int64(q/100*n + 0.5) evaluated identically by harness and library"],
     },
     "C20": {
